@@ -59,11 +59,11 @@ def r20_1(ctx):
     # at the time of the *call* (a method object fetched on the owner's loop and called later from the other thread must still be
     # marshalled to the owner's loop)
     for fetch_on, same, closed, coro, result in [(fo, sm, cl, co, rs) for fo in ("other", "owner") for sm in (True, False) for cl in (False, True)
-                                                 for co in (True, False) for rs in (None, "value", "falsy", "raises")]:
+                                                 for co in (True, False) for rs in (None, "value", "falsy", "bool", "raises")]:
         if True:
             if True:
                 if True:
-                    if coro and result in ("value", "falsy"):
+                    if coro and result in ("value", "falsy", "bool"):
                         continue
                     if result == "raises" and not (same and not closed):
                         continue  # the exception case is about direct calls on the owner's loop
@@ -83,7 +83,7 @@ def r20_1(ctx):
                               ("asyncio.run_coroutine_threadsafe", lambda px_, t, a, k, fr: Outcomes(RAISE("RuntimeError")) if closed else Outcomes(OK(Sym("concurrent_future")))),
                               ("asyncio.iscoroutinefunction", lambda px_, t, a, k, fr: coro), ("inspect.iscoroutinefunction", lambda px_, t, a, k, fr: coro),
                               ("func", lambda px_, t, a, k, fr: Outcomes(RAISE("RuntimeError")) if result == "raises" else (
-                                  Sym("coroutine") if coro else (None if result is None else (0 if result == "falsy" else Obj(TypeRef("object"), {}, tag="result")))))]
+                                  Sym("coroutine") if coro else (None if result is None else (0 if result == "falsy" else (True if result == "bool" else Obj(TypeRef("object"), {}, tag="result"))))))]
                     px = PX(repo, models=models, inline=same_class())
                     px.inline.root = f
 
